@@ -21,7 +21,7 @@ RULE = (
     "controllers only by members so the file stays loadable), option-chunk bytes replaced by arbitrary bytes, SLNK/SLnK entries replaced by "
     "indices of existing modules / small slot numbers / -1, PDTA cells replaced by valid cells; thorough additionally enumerates every CVAL of "
     "every fixture x 6 boundary values. Oracle: Y = save(load(X)); save(load(Y_n)) == Y_n for n = 1..3 (5 thorough); snapshot and raw link tables before save == "
-    "after (for loaded and for freshly constructed objects); two saves of one object are identical; a loaded object saved before anyone looked at it writes the same bytes as one whose attributes were all read first, and reading them between two saves changes nothing. Files that do not load are outside the quantifier and counted. non-trivial = X carries an "
+    "after (for loaded and for freshly constructed objects); two saves of one object are identical; a loaded object saved before anyone looked at it writes the same bytes as one whose attributes were all read first, and reading them between two saves changes nothing, nor does unrelated use of the library (other modules with bindings, other files, failed loads) while the object stays alive; sources include MetaModules whose user-defined controllers are mapped onto embedded controllers of every kind. Files that do not load are outside the quantifier and counted. non-trivial = X carries an "
     "out-of-range stored value, or a freed link slot, or mutated option bytes"
 )
 ASSUMPTIONS = [
@@ -29,7 +29,7 @@ ASSUMPTIONS = [
     "mutations touch top-level chunks only (embedded projects/effects are exercised through generated files)",
 ]
 REQUIRED_LABELS = {
-    "quick": ["fixture", "generated_project", "generated_synth", "cval_out_of_range", "cval_neg_min_out_of_range", "option_bytes", "link_mutation", "pdta_mutation"],
+    "quick": ["fixture", "generated_project", "generated_synth", "cval_out_of_range", "cval_neg_min_out_of_range", "option_bytes", "link_mutation", "pdta_mutation", "generated_metamodule", "user_controller_mapped_to_negative_min"],
     "thorough": ["fixture", "generated_project", "generated_synth", "cval_out_of_range", "cval_neg_min_out_of_range", "option_bytes", "link_mutation", "pdta_mutation", "fixture_cval_sweep"],
 }
 
@@ -80,6 +80,10 @@ def constructed_purity(case):
 
     if case["src"] == "project":
         o = build.make_project(case["spec"])
+    elif case["src"] == "meta":
+        from checks import c15
+
+        o = Synth(c15.build_meta(case["spec"]))
     elif case["src"] == "synth":
         o = Synth(build.make_module(case["spec"]))
     else:
@@ -123,6 +127,14 @@ def stability(x, cycles, what):
     snap_any(o2)
     if o2.read() != y2:
         raise PropertyViolation("C05.inspection.changes_output", "%s: reading the attributes of a loaded object between two saves changed what it writes" % what, key="C05.inspection")
+    # the program goes on to use the library for something else (other objects, other files) while
+    # this object stays alive; it still writes the same bytes afterwards
+    from vlib import noise
+
+    noise.light(len(y))
+    noise.light(len(y) // 7 + 3)
+    if o2.read() != y2 or o.read() != y:
+        raise PropertyViolation("C05.save_deterministic.after_other_use", "%s: an untouched loaded object writes other bytes after the library was used for unrelated objects" % what, key="C05.after_other_use")
     cur = y
     for n in range(1, cycles + 1):
         o3 = load(cur)
@@ -291,7 +303,7 @@ def apply_mutations(chunks, muts):
 @st.composite
 def mutant_case(draw):
     files = fixture_files()
-    src = draw(st.sampled_from(["fixture", "fixture", "project", "synth"]))
+    src = draw(st.sampled_from(["fixture", "fixture", "project", "synth", "meta"]))
     if src == "fixture":
         base = {"src": "fixture", "file": os.path.relpath(draw(st.sampled_from(files)), os.path.join(REPO, "tests", "files"))}
         with open(os.path.join(REPO, "tests", "files", base["file"]), "rb") as f:
@@ -300,6 +312,15 @@ def mutant_case(draw):
         spec = draw(build.project_spec(depth=1, max_modules=4, max_patterns=2, top=True))
         base = {"src": "project", "spec": spec}
         data = build.make_project(spec).read()
+    elif src == "meta":
+        # MetaModules whose user-defined controllers are mapped onto embedded controllers of every kind
+        # (negative minimum, enum, unit dependent, an inner MetaModule's own user controllers) and hold values
+        from checks import c15
+        from rv.api import Synth
+
+        ms = draw(c15.meta_spec(draw(st.integers(1, 2)), in_project=False))
+        base = {"src": "meta", "spec": ms}
+        data = Synth(c15.build_meta(ms)).read()
     else:
         ms = draw(build.module_spec(in_project=False, depth=1))
         base = {"src": "synth", "spec": ms}
@@ -320,6 +341,10 @@ def bytes_of_case(case):
             data = f.read()
     elif case["src"] == "project":
         data = build.make_project(case["spec"]).read()
+    elif case["src"] == "meta":
+        from checks import c15
+
+        data = Synth(c15.build_meta(case["spec"])).read()
     else:
         data = Synth(build.make_module(case["spec"])).read()
     if case["mutations"]:
@@ -329,7 +354,15 @@ def bytes_of_case(case):
 
 def case_labels(case):
     labels = set()
-    labels.add({"fixture": "fixture", "project": "generated_project", "synth": "generated_synth"}[case["src"]])
+    labels.add({"fixture": "fixture", "project": "generated_project", "synth": "generated_synth", "meta": "generated_metamodule"}[case["src"]])
+    if case["src"] == "meta":
+        spec = specmodel.load()
+        inner = case["spec"]["payload"]["project"]["modules"]
+        for _i, mi, ci in case["spec"]["payload"].get("mappings", []):
+            if 1 <= mi <= len(inner) and inner[mi - 1] and ci < len(spec[inner[mi - 1]["type"]].controllers):
+                c = spec[inner[mi - 1]["type"]].controllers[ci]
+                if c.kind in ("range", "compact") and c.min < 0:
+                    labels.add("user_controller_mapped_to_negative_min")
     for mu in case["mutations"]:
         if mu[0] == "cval":
             if mu[3] in ("oor", "oor_neg"):
